@@ -148,6 +148,27 @@ impl<T: Types> RaftLogState<T> {
         Ok(())
     }
 
+    /// Check whether `rec` would be accepted by [`Self::apply`], without
+    /// modifying the state.
+    pub(crate) fn validate(
+        &self,
+        rec: &WALRecord<T>,
+    ) -> Result<(), RaftLogStateError<T>> {
+        if let WALRecord::State(_) = rec {
+            return Ok(());
+        }
+
+        // The checks do not look at the user data; leave it out of the copy.
+        let mut probe = Self {
+            vote: self.vote.clone(),
+            last: self.last.clone(),
+            committed: self.committed.clone(),
+            purged: self.purged.clone(),
+            user_data: None,
+        };
+        probe.apply(rec)
+    }
+
     pub(crate) fn update_vote(
         &mut self,
         vote: &T::Vote,
